@@ -270,14 +270,19 @@ class Model:
             solver = self._choose_solver()
 
         if solver == "dfs":
-            return self._solve_dfs(hints=hints, solution_limit=solution_limit, **kwargs)
+            result = self._solve_dfs(hints=hints, solution_limit=solution_limit, **kwargs)
         elif solver == "sat":
             from solvor.cp_encoder import SATEncoder
 
             encoder = SATEncoder(self)
-            return encoder.solve(hints=hints, solution_limit=solution_limit, **kwargs)
+            result = encoder.solve(hints=hints, solution_limit=solution_limit, **kwargs)
         else:
             raise ValueError(f"Unknown solver: {solver}. Use 'auto', 'dfs', or 'sat'.")
+
+        if hints and result.status == Status.INFEASIBLE:
+            # Hints only guide the search: when they contradict the constraints, solve without them
+            return self.solve(solution_limit=solution_limit, solver=solver, **kwargs)
+        return result
 
     def _solve_dfs(self, *, hints: dict[str, int] | None = None, solution_limit: int = 1, **kwargs):
         """DFS backtracking solver with constraint propagation.
